@@ -143,7 +143,9 @@ ALSO = {
     'C07': ['pubsub_manager.PubSubManager._thread', 'async_pubsub_manager.AsyncPubSubManager._thread'],
     'C08': ['client.Client._handle_reconnect', 'async_client.AsyncClient._handle_reconnect'],
     'C11': ['server.Server._handle_eio_message', 'async_server.AsyncServer._handle_eio_message', 'base_manager.BaseManager.connect'],
-    'C12': ['base_manager.BaseManager.is_connected', 'base_manager.BaseManager.eio_sid_from_sid'],
+    'C12': ['base_manager.BaseManager.is_connected', 'base_manager.BaseManager.eio_sid_from_sid',
+            # the half-received packets of the OTHER transports survive one transport's end (per-transport binary buffer)
+            'server.Server._handle_eio_disconnect', 'async_server.AsyncServer._handle_eio_disconnect'],
     'C20': ['base_manager.BaseManager.basic_disconnect', 'base_manager.BaseManager.can_disconnect'],
     # "an acknowledgement addressed to another server never completes a local callback" (C15) is _return_callback's clause
     'C15': ['pubsub_manager.PubSubManager._return_callback', 'async_pubsub_manager.AsyncPubSubManager._return_callback'],
